@@ -730,6 +730,12 @@ c.raises("ensure/failed-spawn-or-wakeup-releases-the-lock-and-leaves-no-worker-w
               "implies(len(self._processes) > 0 and log_count('raise:ProcessPoolExecutor._start_executor_manager_thread') == 0, self._executor_manager_thread is not None)",
          prop=["C08", "C20", "C02"])
 c.replay_for("ensure/failed-spawn-or-wakeup-releases-the-lock-and-leaves-no-worker-without-a-manager-thread", "partial_spawn_failure")
+# ... and the converse (C05): when not a single worker could be spawned there is nothing to manage; a manager thread started then would wait for ever for the work item
+# the failed submit left registered (F31), and shutdown(wait=True) / a with-block / interpreter exit would never return (a regression the first F23 fix introduced)
+c.raises("ensure/no-manager-thread-is-started-for-a-pool-in-which-no-worker-could-be-spawned", "Exception",
+         post="implies(len(self._processes) == 0 and old(self._executor_manager_thread) is None, self._executor_manager_thread is None)", prop=["C05", "C20"])
+c.rely("the-pool-size-is-positive", "self._max_workers >= 1", "A-atomic")      # (the constructor and the factory reject sizes below one)
+c.replay_for("ensure/no-manager-thread-is-started-for-a-pool-in-which-no-worker-could-be-spawned", "shutdown_after_total_spawn_failure")
 # the remaining case, its own clause: the manager thread itself cannot be started ("can't start new thread") after workers were spawned
 c.raises("ensure/a-manager-thread-that-cannot-be-started-leaves-no-worker-behind", "Exception",
          post="implies(len(self._processes) > 0 and log_count('raise:ProcessPoolExecutor._start_executor_manager_thread') >= 1, self._executor_manager_thread is not None)",
